@@ -6,6 +6,7 @@ import (
 	"go/token"
 	"go/types"
 	"os"
+	"sort"
 
 	"golang.org/x/tools/go/ssa"
 
@@ -560,7 +561,7 @@ func (s *Set) LoopSpecs() func(fn *ssa.Function, ord int) *sym.LoopSpec {
 		if fc == nil {
 			return nil
 		}
-		lc := fc.Loops[ord]
+		lc := fc.Loops[fc.specForLoop(fn, ord)]
 		if lc == nil {
 			return nil
 		}
@@ -668,4 +669,100 @@ func (s *Set) LoopSpecs() func(fn *ssa.Function, ord int) *sym.LoopSpec {
 		}
 		return ls
 	}
+}
+
+// specForLoop maps a loop of the function (by ordinal) to the ordinal of the loop clause group written for it.
+// Normally these coincide. When a loop was added or removed in front of an annotated loop, the group no longer
+// mentions the loop-carried variables of the loop with its ordinal; it is then re-attached to the only loop whose
+// header carries all the loop-carried variables the group mentions. -1 = no clause group.
+func (fc *FuncContract) specForLoop(fn *ssa.Function, ord int) int {
+	fc.loopMapOnce.Do(func() {
+		fc.loopMap = map[int]int{}
+		hs := sym.LoopHeaders(fn)
+		carried := make([]map[string]bool, len(hs))
+		all := map[string]bool{}
+		for k, h := range hs {
+			carried[k] = map[string]bool{}
+			for _, in := range h.Instrs {
+				if p, ok := in.(*ssa.Phi); ok && p.Comment != "" {
+					carried[k][p.Comment] = true
+					all[p.Comment] = true
+				}
+			}
+		}
+		ids := map[int]map[string]bool{}
+		for so, lc := range fc.Loops {
+			m := map[string]bool{}
+			bound := map[string]bool{}
+			visit := func(e ast.Expr) {
+				ast.Inspect(e, func(n ast.Node) bool {
+					switch x := n.(type) {
+					case *ast.CallExpr:
+						if id, ok := x.Fun.(*ast.Ident); ok && (id.Name == "forall" || id.Name == "forallk") && len(x.Args) > 0 {
+							if v, ok := x.Args[0].(*ast.Ident); ok {
+								bound[v.Name] = true
+							}
+						}
+					case *ast.Ident:
+						if all[x.Name] {
+							m[x.Name] = true
+						}
+					}
+					return true
+				})
+			}
+			for _, inv := range lc.Invariants {
+				visit(inv)
+			}
+			if lc.Decreases != nil {
+				visit(lc.Decreases)
+			}
+			for b := range bound {
+				delete(m, b)
+			}
+			ids[so] = m
+		}
+		fits := func(so, k int) bool {
+			if k < 0 || k >= len(hs) {
+				return false
+			}
+			for n := range ids[so] {
+				if !carried[k][n] {
+					return false
+				}
+			}
+			return true
+		}
+		taken := map[int]bool{}
+		var moved []int
+		for so := range fc.Loops {
+			if len(ids[so]) == 0 || fits(so, so) {
+				fc.loopMap[so] = so
+				taken[so] = true
+			} else {
+				moved = append(moved, so)
+			}
+		}
+		sort.Ints(moved)
+		for _, so := range moved {
+			cand := -1
+			n := 0
+			for k := range hs {
+				if !taken[k] && fits(so, k) {
+					cand = k
+					n++
+				}
+			}
+			if n == 1 {
+				fc.loopMap[cand] = so
+				taken[cand] = true
+			} else {
+				fc.loopMap[so] = so // leave as written; the clauses will fail to bind and say so
+			}
+		}
+	})
+	if so, ok := fc.loopMap[ord]; ok {
+		return so
+	}
+	return -1
 }
